@@ -88,7 +88,7 @@ class C07(common.Prop):
         """files whose frame count sits at the edge of 16 bits (the width of the v0.1 frame field; v0.2's has 32): 65535 frames
         and its neighbours, one person, one point - the count a reader takes from the field is the count it must insist on"""
         for i in range(1 if tier == "quick" else 3):
-            F = [65535, 65536, 65534][i] if tier != "quick" else rng.choice([65535, 65535, 65535, 65536])
+            F = [65535, 65536, 65534][i]          # quick: the all-ones 16-bit pattern itself
             D = rng.choice([1, 2])
             comps = [{"name": pg.cps("c0"), "format": pg.cps("XY"[:D] + "C"), "points": [pg.cps("p0")], "limbs": [], "colors": []}]
             pose = {"dims": [640, 480, 0], "comps": comps, "fps": pg.b64(25.0), "shape": [F, 1, 1, D], "cshape": [F, 1, 1], "dtype": "f32",
